@@ -32,6 +32,8 @@ def ascii_text(r: random.Random) -> str:
     """Printable ASCII incl. ^ _ >= <= (for cells whose text_convert is off)."""
     n = r.choice([0, 1, 2, 5, 9, 20])
     t = "".join(r.choice(PRINTABLE) for _ in range(n))
+    if t[:1] in ("#", "@"):
+        t = "x" + t[1:]          # free text never starts with a sentinel (#tag# / @group value)
     if r.random() < 0.3:
         t += r.choice([">=", "<=", "^2", "_1", " a>=b ", "x^y_z"])
     return t
